@@ -188,6 +188,7 @@ def _normalise(outcome):
     # everything after the harness's `end` marker is teardown (close_notify etc.)
     end_seq = min([e["seq"] for e in evs if e.get("comp") == "net" and e["ev"] == "end"] or [1 << 62])
     dtls = [e for e in evs if e.get("comp") == "dtls" and e["seq"] < end_seq]
+    takeover_seq = min([e["seq"] for e in evs if e.get("comp") == "net" and e["ev"] == "takeover"] or [1 << 62])
     peer = sc.get("peer")
     if peer in ("refS", "refC"):
         # the reference endpoint has no hooks: what the proxy delivered to it stands for its receive events
@@ -256,7 +257,10 @@ def _normalise(outcome):
                 elif key in rewritten:
                     rw, _, oms, inj = rewritten[key]
                 elif t == "FIN":
-                    pass  # encrypted on the wire: content is the sender's
+                    # encrypted on the wire: content is the sender's - or, after the adversary took the server's
+                    # place, the adversary's own
+                    if inst == "C" and e["seq"] > takeover_seq:
+                        inj = "m_fin"
                 else:
                     bad = True  # bytes that nobody sent: a reassembly that spliced fragments
             else:
@@ -268,7 +272,9 @@ def _normalise(outcome):
                         rw, _, oms, inj = rewritten[key]
             if rw.startswith("inj_"):
                 inj, rw = rw, ""
-                bad = disp == "acc"      # bytes of the adversary's own making (the model marks them the same way)
+                # bytes of the adversary's own making: garbage in the model, except the second ServerHello / Certificate /
+                # ServerKeyExchange, which are well-formed messages with M's content
+                bad = disp == "acc" and inj not in ("inj_sh2", "inj_cert2", "inj_ske2")
             out.append({"ev": "hs", "inst": inst, "t": t, "ms": ms, "oms": oms, "disp": disp, "lo": lo, "hi": hi,
                         "bad": bad, "rw": rw, "inj": inj, "same": False, "seq": e["seq"]})
         elif ev == "flight":
